@@ -74,6 +74,13 @@ Theorem C10_swhid_fresh : forall (NH : bytes -> list entry -> bytes) (h : list o
 Proof. exact swhid_fresh. Qed.
 Print Assumptions C10_swhid_fresh.
 
+(* Comparing two nodes (==, !=) computes no hash and changes nothing, whether
+   or not their hashes have been computed. *)
+Theorem C10_eq_is_pure : forall (NH : bytes -> list entry -> bytes) (s : heap) (a b : nat),
+  fst (step NH true false s (OEq a b)) = s.
+Proof. reflexivity. Qed.
+Print Assumptions C10_eq_is_pure.
+
 (* No operation of a guarded history can run out of fuel: the path-key lookups
    of Directory (__getitem__, __contains__) never do, in any state (each level
    of key.split(b"/", 1) strictly shortens the key), and after ANY guarded
